@@ -251,6 +251,23 @@ func randMask(r *rand.Rand, h int) int64 {
 
 func genC04(g *Gen) {
 	r := g.R
+	if !g.Quick() { // bitmaps far longer than the tree needs: 2^25 .. 2^26 + 5 words (what lies beyond bitmapSize is ignored)
+		for i, nw := range []int64{1 << 26, 1<<26 + 5, 1 << 25, 1<<25 + 1, 1<<26 - 1} {
+			t := []int64{15, 0x2f, 1<<11 - 1, 0x85, 7}[i]
+			ones := map[int64]bool{0: true, t - 1: true, t: true, t + 70: true, 1 << 30: true, nw*64 - 1: true}
+			for k := 0; k < 6; k++ {
+				ones[r.Int63n(t)] = true
+			}
+			var ol []int64
+			for p := range ones {
+				if p >= 0 && p < nw*64 && p < 1<<31 {
+					ol = append(ol, p)
+				}
+			}
+			sortI64(ol)
+			g.Case("decode", J{"T": t, "bm": J{"nw": nw, "ones": ol}})
+		}
+	}
 	// small trees: every mask of height <= 5 (thorough 6) x structured from/to around every path word
 	maxH := g.N(4, 6)
 	for t := int64(1); t < 1<<uint(maxH+1); t++ {
